@@ -80,6 +80,8 @@ struct Cfg {
     drop_into: bool,
     asref: bool,
     t9: bool,
+    deref_assign_rhs: bool,
+    self_rename: Option<(String, String)>,
     kind_param: Vec<String>, // names standing for the array kind: K, VecKind
     loops: BTreeMap<usize, Value>,
     closures: BTreeMap<usize, Value>,
@@ -319,6 +321,11 @@ impl<'a, 'ast> Visit<'ast> for V<'a> {
             Expr::Path(p) => {
                 if p.qself.is_none() {
                     let ids = path_idents(&p.path);
+                    if ids.len() == 1 && ids[0] == "self" {
+                        if let Some((nm, _)) = self.cfg.self_rename.clone() {
+                            self.ed.replace(lo, hi, nm, "T11");
+                        }
+                    }
                     if ids.len() >= 2 && self.is_kind(&ids[0]) {
                         let s0 = rng(&p.path.segments[0]).0;
                         let s1 = rng(&p.path.segments[1]).1;
@@ -361,9 +368,11 @@ impl<'a, 'ast> Visit<'ast> for V<'a> {
                         let idx = self.loop_ctr;
                         let ann = self.cfg.loops.get(&idx).cloned();
                         let (itn, inv) = loop_annotation(&ann);
+                        let getf = |k: &str| ann.as_ref().and_then(|a| a.get(k)).and_then(|v| v.as_str()).unwrap_or("").to_string();
+                        let (pre, post) = (getf("body_pre"), getf("body_post"));
                         let s = format!(
-                            "{{ let mut vx_v{i} = Vec::new();\n    for {p} in {itn}{recv}{inv}\n    {{\n        vx_v{i}.push({body});\n    }}\n    vx_v{i} }}",
-                            i = idx, p = p, itn = itn, recv = recv, inv = inv, body = body
+                            "{{ let mut vx_v{i} = Vec::new();\n    for {p} in {itn}{recv}{inv}\n    {{\n        {pre}\n        vx_v{i}.push({body});\n        {post}\n    }}\n    vx_v{i} }}",
+                            i = idx, p = p, itn = itn, recv = recv, inv = inv, body = body, pre = pre, post = post
                         );
                         self.ed.replace(lo, hi, s, "T9");
                     }
@@ -412,6 +421,12 @@ impl<'a, 'ast> Visit<'ast> for V<'a> {
                     }
                 }
             }
+            Expr::Binary(b) if self.cfg.deref_assign_rhs && matches!(b.op, BinOp::AddAssign(_) | BinOp::SubAssign(_)) && matches!(&*b.right, Expr::Path(_)) => {
+                // T12: `a += x` with x: &usize is std's forwarding impl `*a += *x`; Verus has no spec for the
+                // reference form, so the dereference is made explicit
+                let at = rng(&*b.right).0;
+                self.ed.insert(at, "*".into(), "T12");
+            }
             Expr::Binary(b) => {
                 let (opname, f) = match b.op {
                     BinOp::Shr(_) => ("shr", "OpShr::op_shr"),
@@ -434,13 +449,23 @@ impl<'a, 'ast> Visit<'ast> for V<'a> {
                     let header = ann.get("header").and_then(|v| v.as_str()).unwrap_or("").to_string();
                     let spec = ann.get("spec").and_then(|v| v.as_str()).unwrap_or("").to_string();
                     let (blo, bhi) = rng(&*c.body);
-                    let is_block = matches!(&*c.body, Expr::Block(_));
-                    if is_block {
-                        self.ed.replace(lo, blo, format!("{} {} ", header, spec), "closure-spec");
-                    } else {
-                        self.ed.replace(lo, blo, format!("{} {} {{ ", header, spec), "closure-spec");
-                        self.ed.insert(bhi, " }".into(), "");
+                    // T10: a pattern parameter (Verus takes only variables) becomes a named parameter
+                    // plus `let <original pattern> = <name>;` at the start of the closure body
+                    let mut prologue = String::new();
+                    if let Some(nm) = ann.get("destructure").and_then(|v| v.as_str()) {
+                        if c.inputs.len() == 1 {
+                            let pat = match &c.inputs[0] {
+                                Pat::Type(pt) => self.ed.r(&*pt.pat),
+                                p => self.ed.r(p),
+                            };
+                            prologue = format!("let {} = {}; ", pat, nm);
+                            self.ed.count("T10");
+                        } else {
+                            self.errors.push("T10 needs a single closure parameter".into());
+                        }
                     }
+                    let body_text = self.ed.render(blo, bhi);
+                    self.ed.replace(lo, hi, format!("{} {} {{ {}{} }}", header, spec, prologue, body_text), "closure-spec");
                 }
             }
             Expr::ForLoop(f) => {
@@ -675,6 +700,12 @@ fn cfg_from(req: &Value) -> Cfg {
         c.drop_into = r.get("drop_into").and_then(|v| v.as_bool()).unwrap_or(false);
         c.asref = r.get("asref").and_then(|v| v.as_bool()).unwrap_or(false);
         c.t9 = r.get("t9").and_then(|v| v.as_bool()).unwrap_or(false);
+        c.deref_assign_rhs = r.get("deref_assign_rhs").and_then(|v| v.as_bool()).unwrap_or(false);
+        if let Some(a) = r.get("self_rename").and_then(|v| v.as_array()) {
+            if a.len() == 2 {
+                c.self_rename = Some((a[0].as_str().unwrap_or("").to_string(), a[1].as_str().unwrap_or("").to_string()));
+            }
+        }
     }
     if let Some(a) = req.get("annotations") {
         if let Some(m) = a.get("loops").and_then(|v| v.as_object()) {
@@ -724,7 +755,11 @@ fn render_fn(src: &str, sig: &Signature, block: Option<&Block>, req: &Value, who
     let mut v = V { ed: Ed::new(src), cfg: cfg.clone(), loop_ctr: 0, closure_ctr: 0, loops: vec![], stmts: vec![], errors: vec![] };
     // signature: register type edits
     for inp in sig.inputs.iter() {
-        v.visit_fn_arg(inp);
+        match inp {
+            // `&self` carries an implied type `&Self` whose span is the receiver itself: skip it
+            FnArg::Receiver(r) if r.colon_token.is_none() => {}
+            _ => v.visit_fn_arg(inp),
+        }
     }
     if let ReturnType::Type(_, t) = &sig.output {
         v.visit_type(t);
@@ -768,7 +803,14 @@ fn render_fn(src: &str, sig: &Signature, block: Option<&Block>, req: &Value, who
         }
     }
     let generics = if gens.is_empty() { String::new() } else { format!("<{}>", gens.join(", ")) };
-    let inputs: Vec<String> = sig.inputs.iter().map(|i| v.ed.r(i)).collect();
+    let inputs: Vec<String> = sig
+        .inputs
+        .iter()
+        .map(|i| match (i, &v.cfg.self_rename) {
+            (FnArg::Receiver(_), Some((nm, ty))) => format!("{}: {}", nm, ty),
+            _ => v.ed.r(i),
+        })
+        .collect();
     let ret_name = ann.get("ret").and_then(|x| x.as_str()).unwrap_or("r");
     let ret = match &sig.output {
         ReturnType::Default => String::new(),
@@ -851,6 +893,8 @@ fn render_fn(src: &str, sig: &Signature, block: Option<&Block>, req: &Value, who
                     };
                     if anchor == "start" {
                         v.ed.insert(open, wrapped, "proof-hint");
+                    } else if anchor == "close" {
+                        v.ed.insert(close, wrapped, "proof-hint");
                     } else if anchor == "end" {
                         let at = match b.stmts.last() {
                             Some(Stmt::Expr(e, None)) => rng(e).0,
